@@ -481,6 +481,95 @@ pub fn run_item(prop: &str, tier: &str, idx: usize, only: Option<&Value>) -> MRe
             res.count("trees", 1);
         }
     }
+    // Callers other than root (third item only): uid 1000 without capabilities, and root stripped of every capability, on a tree
+    // whose directories and files carry restrictive modes. The oracle is the kernel's answer to the SAME caller: one raw openat2
+    // issued by a third worker process with the same identity (no library code involved).
+    if idx == (if n_items(tier) > 2 { 2 } else { 0 }) && only.map(|o| o["tree_idx"].as_u64().map(|t| t >= 999_100 && t < 999_110).unwrap_or(false)).unwrap_or(true) {
+        for (which, (uid, drop_caps)) in [(1000u32, false), (0u32, true)].into_iter().enumerate() {
+            if let Some(o) = only { if o["tree_idx"].as_u64() != Some(999_100 + which as u64) { continue; } }
+            clear_dir(&root_out)?;
+            // (path, kind, owner, final mode)
+            let ents: Vec<(&str, &str, u32, u32)> = vec![
+                ("d711", "d", 1000, 0o711), ("d711/f", "f", 1000, 0o644), ("d711/sub", "d", 1000, 0o755), ("d711/l", "l:../pub/f", 1000, 0),
+                ("d000", "d", 1000, 0o000), ("d000/f", "f", 1000, 0o644), ("d000/sub", "d", 1000, 0o755),
+                ("d500", "d", 1000, 0o500), ("d500/f", "f", 1000, 0o644),
+                ("d300", "d", 1000, 0o300), ("d300/f", "f", 1000, 0o644), ("d300/sub", "d", 1000, 0o755),
+                ("d070", "d", 1000, 0o070), ("d070/f", "f", 1000, 0o644),
+                ("dr", "d", 0, 0o755), ("dr/f0", "f", 0, 0o600), ("dr/x", "d", 0, 0o700), ("dr/x/f", "f", 0, 0o644), ("dr/o", "d", 0, 0o701), ("dr/o/f", "f", 0, 0o604),
+                ("pub", "d", 1000, 0o755), ("pub/f", "f", 1000, 0o644), ("pub/w", "f", 1000, 0o200), ("pub/none", "f", 1000, 0o000), ("pub/x", "f", 0, 0o711),
+                ("l1", "l:d000/f", 1000, 0), ("l2", "l:dr/x/..", 1000, 0), ("l3", "l:d300/sub/..", 1000, 0), ("l4", "l:/dr/x", 0, 0), ("l5", "l:dr/o/f", 0, 0), ("l6", "l:d711/sub/../f", 1000, 0),
+            ];
+            for (p, k, _, _) in &ents {
+                let full = cs(&format!("{}/{}", root_out, p));
+                let r = unsafe { match *k { "d" => libc::mkdir(full.as_ptr(), 0o755), "f" => { let fd = libc::open(full.as_ptr(), libc::O_CREAT | libc::O_WRONLY | libc::O_CLOEXEC, 0o644); if fd >= 0 { libc::close(fd); 0 } else { -1 } }, l => { let t = cs(&l[2..]); libc::symlink(t.as_ptr(), full.as_ptr()) } } };
+                if r != 0 { return mach(format!("build {}: errno {}", p, errno())); }
+            }
+            for (p, k, owner, mode) in ents.iter().rev() {
+                let full = cs(&format!("{}/{}", root_out, p));
+                unsafe { libc::lchown(full.as_ptr(), *owner, *owner); if !k.starts_with("l:") { libc::chmod(full.as_ptr(), *mode); } }
+            }
+            let snap = snapshot(&root_out)?;
+            let labels_u = labels(&snap, "");
+            let tree_text = ents.iter().map(|(p, k, o, m)| format!("{}{} u{} {:o}", p, if *k == "d" { "/" } else if *k == "f" { "" } else { &k[1..] }, o, m)).collect::<Vec<_>>().join(" ");
+            let setup = |deny: Vec<String>| Setup { jail: JAIL.into(), deny, uid, gid: uid, drop_caps, ..Default::default() };
+            let who = if uid == 0 { "root-nocaps" } else { "uid1000" };
+            let mut ku = Wk::spawn(&format!("K-{}", who), &setup(vec![]))?;
+            let mut eu = Wk::spawn(&format!("E-{}", who), &setup(vec!["openat2".into()]))?;
+            let mut ou = Wk::spawn(&format!("O-{}", who), &setup(vec![]))?;
+            let paths = ["d711", "d711/f", "d711/sub", "d711/sub/..", "d711/sub/../f", "d711/l", "d711/..", "d000", "d000/f", "d000/sub", "d000/..", "d000/../pub/f", "d000/sub/..", "d500/f", "d500/..", "d500/../d500/f", "d300", "d300/f", "d300/sub", "d300/sub/..",
+                "d300/sub/../f", "d070", "d070/f", "d070/..", "dr/f0", "dr/x", "dr/x/f", "dr/x/..", "dr/x/../f0", "dr/o", "dr/o/f", "dr/o/..", "dr/o/../f0", "pub/f", "pub/w", "pub/none", "pub/x", "pub/none/", "pub/../pub/w", "l1", "l2", "l2/f0", "l3", "l3/f", "l4", "l4/f", "l4/..", "l5", "l6", "l6/",
+                "d000/nonexistent", "dr/x/nonexistent", "d300/nonexistent", "nonexistent", "..", "d711/../d000/../pub"];
+            let mut cases: Vec<LCase> = Vec::new();
+            for p in paths {
+                if let Some(o) = only { if o["path"].as_str() != Some(p) { continue; } }
+                cases.extend(lookup_ops(p, &[O_PATH, O_RDONLY | O_NONBLOCK, O_WRONLY | O_NONBLOCK, O_RDONLY | O_DIRECTORY | O_NONBLOCK, O_PATH | O_NOFOLLOW, O_RDWR | O_NONBLOCK], &[0, RESOLVE_NO_SYMLINKS], false));
+            }
+            if let Some(o) = only { let want: Op = serde_json::from_value(o["op"].clone()).map_err(|e| Mach(format!("bad replay op: {}", e)))?; cases.retain(|c| c.op == want); }
+            let oracle_op = |c: &LCase| {
+                let fl = match c.op.name.as_str() { "resolve" => O_PATH, "resolve_nofollow" | "readlink" => O_PATH | O_NOFOLLOW, _ => c.op.flags.unwrap_or(0) };
+                let mut o = Op::new("raw_openat2").root(ROOT_IN).path(c.op.path.as_deref().unwrap_or("")).flags(fl).rflags(RESOLVE_IN_ROOT | RESOLVE_NO_MAGICLINKS | c.op.rflags.unwrap_or(0));
+                if c.op.name == "readlink" { o = o.itype("readlink"); }
+                o
+            };
+            let ops: Vec<Op> = cases.iter().map(|c| c.op.clone()).collect();
+            let mut ko = ku.call(ops.clone())?;
+            let mut eo = eu.call(ops)?;
+            let oo = ou.call(cases.iter().map(oracle_op).collect())?;
+            for (i, c) in cases.iter().enumerate() {
+                if let Some(h) = &oo[i].harness_error { return mach(format!("oracle worker: {}", h)); }
+                let mut want = got_of(&oo[i]);
+                res.evaluations += 2; res.nontrivial += 1;
+                let cmp = |w: &Want, g: &Want| if c.op.name == "open_subpath" { (w.clone(), g.clone()) } else { (strip_fl(w), strip_fl(g)) };
+                for (bk, obs_list, wk) in [("K", &mut ko, &mut ku), ("E", &mut eo, &mut eu)] {
+                    let mut got = got_of(&obs_list[i]);
+                    let mut tries = 0;
+                    while cmp(&want, &got).0 != cmp(&want, &got).1 && tries < 4 {
+                        obs_list[i] = wk.one(c.op.clone())?; got = got_of(&obs_list[i]); want = got_of(&ou.one(oracle_op(c))?); tries += 1;
+                        if !is_transient(&got) && !is_transient(&want) && tries >= 2 { break; }
+                    }
+                    res.outcome(format!("{}:{}:{}", who, c.op.name, cls(&got)));
+                    let replay = json!({"engine": "lookup", "item": idx, "tree_idx": 999_100 + which as u64, "tree": tree_text, "path": c.op.path, "op": c.op, "backend": bk, "caller": who});
+                    if obs_list[i].panic.is_some() { res.violate(format!("{}:{}:panic", bk, c.op.name), format!("panic (caller {}) {}: {:?}", who, c.op.brief(), obs_list[i].panic), replay.clone()); continue; }
+                    if let Some(h) = &obs_list[i].harness_error { return mach(format!("worker {}: {}", bk, h)); }
+                    let (cw, cg) = cmp(&want, &got);
+                    if prop == "C01" && cw != cg {
+                        res.violate(format!("{}:{}:caller-{}:{}->{}", bk, c.op.name, who, cls(&want), cls(&got)), format!("caller {} on tree [{}] {} on backend {}: the kernel's in-root resolution for this caller gives {}, libpathrs gives {} ({})", who, tree_text, c.op.brief(), bk, want_text(&want, &labels_u), want_text(&got, &labels_u), obs_list[i].msg.clone().unwrap_or_default()), replay.clone());
+                    }
+                }
+                if prop == "C04" {
+                    let (gk, ge) = (got_of(&ko[i]), got_of(&eo[i]));
+                    if gk != ge || ko[i].kind != eo[i].kind {
+                        res.violate(format!("lookup:{}:caller-{}:K={}/{} E={}/{}", c.op.name, who, short(&gk), ko[i].kind.clone().unwrap_or_default(), short(&ge), eo[i].kind.clone().unwrap_or_default()), format!("caller {} on tree [{}] {}: kernel backend gives {} ({}), emulated backend gives {} ({})", who, tree_text, c.op.brief(), want_text(&gk, &labels_u), ko[i].msg.clone().unwrap_or_default(), want_text(&ge, &labels_u), eo[i].msg.clone().unwrap_or_default()),
+                            json!({"engine": "lookup", "item": idx, "tree_idx": 999_100 + which as u64, "path": c.op.path, "op": c.op, "caller": who}));
+                    }
+                }
+            }
+            // make everything removable again for the next tree
+            for (p, k, _, _) in ents.iter() { if *k == "d" { let full = cs(&format!("{}/{}", root_out, p)); unsafe { libc::chmod(full.as_ptr(), 0o755) }; } }
+            res.count("trees", 1);
+        }
+        clear_dir(&root_out)?;
+    }
     res.states = seen_states.len() as u64;
     // nothing outside the root may have changed during a sweep of pure lookups
     let outside_after = snapshot_outside()?;
